@@ -1,8 +1,18 @@
 OUTSIDE = ("libc qsort itself (replaced by a reference insertion sort over the real comparator); the real source-address probe "
-           "(socket layer stubbed at the TU boundary); more than 3 addresses per list / answer; the end-to-end ares_getaddrinfo flow "
-           "(walk: C12)")
+           "(socket layer stubbed at the TU boundary); more than 3 (thorough: 4) addresses per list / 3 answers per message; "
+           "ares_addrinfo2hostent() extending a caller-supplied hostent (*host != NULL); answer names other than the fixed chain "
+           "q.x -> r.y -> s.z -> t.w; TTLs above INT_MAX are stored as (int)ttl (asserted as such); the end-to-end ares_getaddrinfo / "
+           "ares_gethostbyname flow (walk: C12) - in particular ares_getaddrinfo does not filter address records of the other family "
+           "out of an answer (ares_parse_into_addrinfo has no family argument; only addrinfo2hostent/addrinfo2addrttl filter)")
 ASSUMPTIONS = ["c13_sort_*: ares_socket_open/connect/close and the agetsockname callback are contract stubs (any outcome, any source "
-               "address bytes); qsort is a reference insertion sort calling the real rfc6724_compare"]
+               "address bytes); qsort is a reference insertion sort calling the real rfc6724_compare",
+               "c13_sortlist_*: sortlist prefix lengths are within 0..32 / 0..128 (guaranteed by the sortlist parser, C15)",
+               "c13_into_addrinfo_*: records are built with values the public record API accepts; memset is the pointer-word-wise "
+               "loop of c13_mem.c (copy of harness/C03/c03_mem.c)",
+               "c13_ptrname_v4_*: ares_count_digits() is wrapped: the wrapper returns the job's concrete digit count for the octet "
+               "being printed and asserts that the real ares_count_digits() returns the same (keeps the output length concrete); "
+               "each job assumes its octets lie in the job's digit-count slice, the 81 slices cover all addresses",
+               "c13_localhost_*: the Windows system loopback enumeration is not compiled (returns ARES_ENOTFOUND on this platform)"]
 LIB = ["src/lib/ares_library_init.c"]
 
 
@@ -14,7 +24,9 @@ def sort_jobs(tier):
     J = []
     pats = {0: ["0"], 1: ["4", "6"], 2: ["44", "46", "64", "66"],
             3: ["444", "446", "464", "644", "466", "646", "664", "666"]}
-    for n in (0, 1, 2, 3):
+    if tier != "quick":
+        pats[4] = ["4444", "4646", "6644", "6666", "4664"]
+    for n in sorted(pats):
         for p in pats[n]:
             J.append(dict(name="c13_sort_perm_n%d_%s" % (n, p), harness="sort.c", defines=["-DMODE=0", "-DNN=%d" % n, "-DFAMS=%s" % p],
                           real=LIB, unwind=30, leak=True, mem_gb=6, timeout=240,
@@ -37,9 +49,11 @@ def sortlist_jobs(tier):
     for fam in (4, 6):
         for n in (0, 1, 2, 3):
             for ns in ((1, 2) if n else (2,)):
+                if tier == "quick" and (fam, n, ns) == (6, 3, 2):
+                    continue   # measured 63-86 s (solver bound, cadical no better): thorough tier
                 J.append(dict(name="c13_sortlist_v%d_n%d_ns%d" % (fam, n, ns), harness="sortlist.c",
                               defines=["-DFAM=%d" % fam, "-DNN=%d" % n, "-DNS=%d" % ns],
-                              real=LIB + ["src/lib/ares_update_servers.c"], unwind=130 if fam == 6 else 34, mem_gb=6, timeout=240,
+                              real=LIB + ["src/lib/ares_update_servers.c"], unwind=34, mem_gb=6, timeout=240,
                               witnesses=["end"] + (["pattern matched"] if n else []) + (["order changed"] if n >= 2 else []),
                               bound="sort%s_addresses on %d addresses (all bytes symbolic) with %d sortlist patterns (family, address, "
                                     "prefix length symbolic)" % ("" if fam == 4 else "6", n, ns)))
